@@ -103,3 +103,80 @@ func init() {
 		o.MinSites(1)
 	})
 }
+
+// exposeAlertsReadOnlyRule: alert.Alerts turns stored alerts into what templates and integrations see.  It is called
+// on the objects the group store and the provider hold (the groups API renders route labels from them), so it must
+// not change them: every result is a per-alert copy, the end time is hidden in the copy only, and only for alerts
+// that are not resolved yet.
+func exposeAlertsReadOnlyRule(o *Ob) {
+	e := o.E
+	fn := o.Fn("am/alert.Alerts")
+	o.Site(fnFirst(fn), "alert.Alerts")
+	for _, w := range e.WritesThroughParam(fn, 0, 2) {
+		o.Fail("expose-writes", "alert.Alerts changes the alerts it is given ("+w.What+"): the stored alert would lose its end time and never resolve", w.Instr)
+	}
+	o.Checks++
+	o.Passed++
+	// the hidden end time: a zero store into the copy, only for unresolved alerts, and for all of them
+	var hides []ssa.Instruction
+	for _, st := range e.StoresToField(fn, "github.com/prometheus/common/model.Alert", "EndsAt") {
+		if e.X(fn, st.Val) == "zero:time.Time" {
+			hides = append(hides, st)
+			base := st.Addr.(*ssa.FieldAddr).X
+			_, fresh := base.(*ssa.Alloc)
+			o.Check(fresh, "expose-hide-copy", "the end time must be hidden in the copy, is hidden in "+e.X(fn, base), st)
+			o.Guarded(st, "expose-hide-guard", "hiding the end time", LRe(`\(\*model\.Alert\)\.Resolved\(p0\[i\](\.Alert)?\)|\(\*am/alert\.Alert\)\.Resolved\(p0\[i\]\)`, false))
+		}
+	}
+	// one copy per alert, made in the iteration
+	var app ssa.Instruction
+	for _, ret := range (&Walk{Fn: fn}).FromEntry().Returns() {
+		_, parts := e.AppendParts(ret.Results[0])
+		for _, p := range parts {
+			if p.Call == nil {
+				continue
+			}
+			app = p.Call
+			al, isA := p.V.(*ssa.Alloc)
+			if o.Check(isA, "expose-copy", "each exposed alert must be a copy of its own, is "+e.X(fn, p.V), p.Call) {
+				l := e.LoopOf(p.Call)
+				o.Check(l != nil && l.Blocks[al.Block().Index], "expose-copy-shared", "all exposed alerts share one copy declared outside the loop", p.Call)
+				n := 0
+				for _, r := range *al.Referrers() {
+					if st, ok := r.(*ssa.Store); ok && st.Addr == ssa.Value(al) {
+						n++
+						o.Check(regexpMatch(`p0\[i\](\.Alert)?`, e.X(fn, st.Val)), "expose-copy-of", "the copy must be of the alert of the iteration, is of "+e.X(fn, st.Val), st)
+					}
+				}
+				o.Check(n == 1, "expose-copy-init", "the copy is not initialised from the alert", p.Call)
+			}
+		}
+	}
+	if o.Check(app != nil, "expose-collect", "alert.Alerts no longer collects its results", fnFirst(fn)) {
+		if l := e.LoopOf(app); o.Check(l != nil, "expose-loop", "alerts must be exposed in a loop", app) {
+			o.Check(e.CoversAll(l, "p0") && len(e.EarlyExits(l)) == 0 && !loopBackWithout(o, l, IsInstr(app), nil), "expose-all", "an alert can be left out", app)
+			if len(hides) > 0 {
+				o.Check(!loopBackWithout(o, l, IsInstr(hides...), e.CutContradicting(LRe(`\(\*model\.Alert\)\.Resolved\(p0\[i\](\.Alert)?\)|\(\*am/alert\.Alert\)\.Resolved\(p0\[i\]\)`, false))), "expose-hide-forced", "an unresolved alert can be exposed with its end time", app)
+			}
+		}
+	}
+	o.Check(len(hides) >= 1, "expose-hide", "the end time of unresolved alerts is no longer hidden", fnFirst(fn))
+	// the template data is built from read-only views as well
+	td := o.Fn("(*am/template.Template).Data")
+	for i := range td.Params {
+		if strings.Contains(typeStr(td.Params[i].Type()), "alert.Alert") {
+			for _, w := range e.WritesThroughParam(td, i, 3) {
+				o.Fail("data-writes", "Template.Data changes the alerts it is given ("+w.What+")", w.Instr)
+			}
+			o.Checks++
+			o.Passed++
+		}
+	}
+}
+
+func init() {
+	desc := "alert.Alerts and Template.Data never write through the alerts they are given; each exposed alert is its own copy; the end time is hidden in the copy, exactly for unresolved alerts"
+	reg("C05", "C05.14", "T12,T8", "rendering an alert never changes when it resolves: "+desc, func(o *Ob) { exposeAlertsReadOnlyRule(o); o.MinSites(1) })
+	reg("C13", "C13.10", "T12,T8", "reading alerts does not change what is stored: "+desc, func(o *Ob) { exposeAlertsReadOnlyRule(o); o.MinSites(1) })
+	reg("C20", "C20.11", "T12,T8", "the data handed to templates lists the alerts unchanged: "+desc, func(o *Ob) { exposeAlertsReadOnlyRule(o); o.MinSites(1) })
+}
